@@ -24,7 +24,7 @@ def jobs(tier):
     return J
 
 # ---- photon mutex on the kernel contract K (sequentialised threads, cooperative scheduling + symbolic timeout/interrupt events)
-KSTUB = ['--thread', '^@thread_entry_',
+KSTUB = ['--thread', '^@thread_entry_', '--asm', 'rol $$1, $0=verif_rol1',
          '--blocking', r'^@_ZN6photonL19thread_usleep_deferENS_7TimeoutEPNS_11thread_listEPFvPvES3_$=K_usleep_defer_begin,K_usleep_end',
          '--blocking', r'^@_ZN6photonL13thread_usleepENS_7TimeoutEPNS_11thread_listE$=K_usleep_begin,K_usleep_end',
          '--blocking', r'^@_ZN6photon13thread_usleepENS_7TimeoutE$=K_usleep_public_begin,K_usleep_end',
